@@ -690,3 +690,21 @@ Definition topo_next (less : Z -> Z -> bool) (s : ts_st) : option (ts_st * bool)
 
 Definition topo_value (s : ts_st) : list Z := ts_state s.
 Definition topo_inverse (s : ts_st) : list Z := ts_inv s.
+
+(* ------------------------------------------------------------------ constructors with a caller-chosen fuel *)
+
+(* The fuel of the goto loops is not part of the Go structs; the constructors above fix it to a
+   bound proved sufficient (a Peano numeral of the size of the whole search tree).  For
+   parameters whose search tree is astronomically large but is pruned to a small part by the
+   predicate, the correspondence driver builds the same initial state with a smaller fuel that
+   still exceeds the number of steps of the run (4 per node visited); running out of it would
+   show as a model panic. *)
+Definition rpprod_init_with (fuel : nat) (ns : list Z) : rp_st :=
+  {| rp_state := []; rp_n := ns; rp_empty := existsb (fun v => v <? 1) ns; rp_fuel0 := fuel |}.
+
+Definition rpperm_init_with (fuel : nat) (n : nat) : rx_st :=
+  {| rx_n := n; rx_a := None; rx_l := map (fun i => Z.of_nat i + 1) (seq 0 n) ++ [0];
+     rx_u := repeat 0 n; rx_done := false; rx_fuel0 := fuel |}.
+
+Definition pattern_init_with (fuel : nat) (n : nat) : pb_st :=
+  {| pb_n := n; pb_a := None; pb_fuel0 := fuel |}.
